@@ -719,6 +719,11 @@ func main() {
 	minimised := map[string]bool{}
 	agg := map[string]int64{}
 	keyCount := map[string]int{}
+	type caseFindings struct {
+		cs *caseSpec
+		fs []finding
+	}
+	found := make([]*caseFindings, nCases)
 
 	vf.Parallel(nCases, runtime.NumCPU(), func(i int) {
 		cs := genCase(rng.Sub(uint64(i)), i)
@@ -764,11 +769,19 @@ func main() {
 		if i < 4 {
 			r.Sample(cs)
 		}
-		for _, f := range fs {
-			mu.Lock()
+		if len(fs) > 0 {
+			found[i] = &caseFindings{cs, fs}
+		}
+	})
+	// violations are reported serially in case order; the first case of every key is minimised
+	for _, cf := range found {
+		if cf == nil {
+			continue
+		}
+		cs := cf.cs
+		for _, f := range cf.fs {
 			first := !minimised[f.Key]
 			minimised[f.Key] = true
-			mu.Unlock()
 			wit := map[string]interface{}{"case": cs, "info": f.Info, "fired_after_message": f.Step + 1}
 			if first && strings.HasPrefix(f.Key, "commit-declared-without-quorum") {
 				min := minimise(cs, f.Key)
@@ -780,12 +793,10 @@ func main() {
 					}
 				}
 			}
-			mu.Lock()
 			keyCount[f.Key]++
-			mu.Unlock()
 			r.Violation(f.Key, f.What, wit)
 		}
-	})
+	}
 	for k, v := range agg {
 		r.Add(k, v)
 	}
